@@ -264,6 +264,12 @@ func (db *MultiBucketBackend) getBucketWithArbitraryPrefixLocked(bucket string, 
 }
 
 func (db *MultiBucketBackend) CreateBucket(name string) error {
+	// The name becomes a directory below the bucket root. One with a slash in
+	// it would end up inside another bucket, or, climbing, outside the root:
+	if err := gofakes3.ValidateBucketName(name); err != nil {
+		return err
+	}
+
 	db.lock.Lock()
 	defer db.lock.Unlock()
 
